@@ -329,4 +329,90 @@ def wfKw (w : World) : List (Nat × V) → Prop
   | (_, x) :: xs => wfV w x ∧ wfKw w xs
 end
 
+/-! ## `get_reusable_executor`: which reducers (initializer, environment) the returned executor carries
+
+    kwargs = dict(context=…, timeout=…, job_reducers=…, result_reducers=…, initializer=…, initargs=…, env=…)
+    if executor is None:            _executor_kwargs = kwargs; executor = cls(…, **kwargs)
+    else:
+        if reuse == "auto":         reuse = kwargs == _executor_kwargs
+        if executor._flags.broken or executor._flags.shutdown or not reuse:
+            executor.shutdown(…); _executor = _executor_kwargs = None; return cls.get_reusable_executor(…)   # new one
+        else:                       executor._resize(max_workers)                                            # reused
+
+Functions, closures, `functools.partial` objects and instances of classes without `__eq__` compare by
+identity under `==`; a reducer (initializer, element of `initargs`) is therefore its identity number, and
+equal numbers = `==`.  Reducer maps are given sorted by type (`dict` equality ignores insertion order). -/
+
+/-- an object passed as initializer / in `initargs` (identity) -/
+abbrev Obj := Nat
+
+/-- what `get_reusable_executor` stores in `_executor_kwargs` (the default `context` left out) -/
+structure Kwargs where
+  timeout : Nat
+  job : Option Table
+  res : Option Table
+  init : Option Obj
+  initargs : List Obj
+  env : Option (List (Nat × Nat))
+  deriving DecidableEq, Repr
+
+/-- a reusable executor object -/
+structure RExec where
+  /-- `executor_id` -/
+  id : Nat
+  /-- `_executor_kwargs` (module global, set together with `_executor`) -/
+  kwargs : Kwargs
+  maxWorkers : Nat
+  /-- `_call_queue._reducers`: what the feeder thread pickles every task with -/
+  jobq : Option Table
+  /-- `_result_queue._reducers`: every worker gets a copy when it is spawned and pickles results with it -/
+  resq : Option Table
+  /-- `_initializer`, `_initargs`, `_env`: handed to every spawned worker -/
+  init : Option Obj
+  initargs : List Obj
+  env : Option (List (Nat × Nat))
+  /-- neither broken nor shut down -/
+  usable : Bool
+  deriving DecidableEq, Repr
+
+structure RState where
+  nextId : Nat
+  cur : Option RExec
+  deriving DecidableEq, Repr
+
+/-- `cls(_executor_lock, max_workers=w, executor_id=id, **kwargs)`: the constructor of C15's `newExecutor` -/
+def newRExec (id w : Nat) (k : Kwargs) : RExec :=
+  ⟨id, k, w, k.job, resultReducers k.job k.res, k.init, k.initargs, k.env, true⟩
+
+/-- `get_reusable_executor(max_workers=w, reuse="auto", **k)`, with the test `same k _executor_kwargs` for
+"the arguments have not changed"; returns the new state and `is_reused` -/
+def request (same : Kwargs → Kwargs → Bool) (s : RState) (w : Nat) (k : Kwargs) : RState × Bool :=
+  match s.cur with
+  | none => (⟨s.nextId + 1, some (newRExec s.nextId w k)⟩, false)
+  | some e =>
+    if e.usable && same k e.kwargs then (⟨s.nextId, some { e with maxWorkers := w }⟩, true)
+    else (⟨s.nextId + 1, some (newRExec s.nextId w k)⟩, false)
+
+/-- the test of the code: `kwargs == _executor_kwargs` -/
+def sameKwargs (a b : Kwargs) : Bool := decide (a = b)
+
+/-- a history on the singleton -/
+inductive ROp where
+  | req (w : Nat) (k : Kwargs)
+  /-- `executor.shutdown()` by the user (or the pool broke): the object stays installed, flagged -/
+  | shutdown
+  deriving DecidableEq, Repr
+
+def rstep (same : Kwargs → Kwargs → Bool) (s : RState) : ROp → RState
+  | .req w k => (request same s w k).1
+  | .shutdown => { s with cur := s.cur.map (fun e => { e with usable := false }) }
+
+def rrun (same : Kwargs → Kwargs → Bool) (s : RState) (ops : List ROp) : RState := ops.foldl (rstep same) s
+
+/-- "compare the reducers by their implementation": a key per reducer (its code object / its class) -/
+def sameByCode (code : Reducer → Nat) (a b : Kwargs) : Bool :=
+  let key (t : Option Table) := t.map (fun l => l.map (fun p => (p.1, code p.2)))
+  decide (a.timeout = b.timeout ∧ key a.job = key b.job ∧ key a.res = key b.res ∧ a.init = b.init
+    ∧ a.initargs = b.initargs ∧ a.env = b.env)
+
 end LokyModel.Pickle
